@@ -18,11 +18,20 @@
 (* checks that it satisfies Level A on every namespace.  Bug variants:     *)
 (* "PrefixDropped" (a table name shared with another sheet printed without *)
 (* its sheet), "AlwaysHostSheet" (T:: read against the target's sheet).    *)
+(* Dynamics: a table may be RENAMED while the document is open (any name   *)
+(* not used by a sibling); the property is then about the names as they    *)
+(* are NOW.  The library keeps a cache of document-unique table names that *)
+(* is refreshed at a few points only (uniq = the names that were unique    *)
+(* at the last refresh); the prefix chooser must not depend on it: Bug =   *)
+(* "StaleUniqueCache" does.                                                *)
 (***************************************************************************)
 EXTENDS Integers, Sequences, FiniteSets, TLC
 CONSTANTS MaxSheets, MaxTables, TableNames, Bug
-VARIABLES ns, host, target
-vars == <<ns, host, target>>
+VARIABLES ns, host, target,
+          ns0,        \* the namespace the document was built with
+          renamed,    \* <<>> or <<table, new name>>: the rename performed since
+          uniq        \* names that were unique in the document when the name cache was last rebuilt
+vars == <<ns, host, target, ns0, renamed, uniq>>
 Tables(n) == {<<s, t>> : s \in 1..Len(n), t \in 1..MaxTables} \cap {<<s, t>> \in (1..Len(n)) \X (1..MaxTables) : t <= Len(n[s])}
 NameOf(n, x) == n[x[1]][x[2]]
 SheetName(s) == s                        \* sheets are named by their index (sheet names are unique)
@@ -35,20 +44,31 @@ Resolve(n, h, q) ==
        IF inSheet # {} THEN inSheet ELSE {x \in Tables(n) : NameOf(n, x) = q[2]}
 \* ---- Level B: expand_ref for a plain (not name-scoped) reference
 UniqueInDoc(n, nm) == Cardinality({x \in Tables(n) : NameOf(n, x) = nm}) = 1
-Printed(n, h, t) ==
+UniqueNames(n) == {nm \in TableNames : UniqueInDoc(n, nm)}
+PrintedWith(n, h, t, cache) ==
   IF h = t THEN <<0, "">>
   ELSE IF h[1] = t[1] THEN <<0, NameOf(n, t)>>
-  ELSE IF UniqueInDoc(n, NameOf(n, t)) \/ Bug = "PrefixDropped" THEN <<0, NameOf(n, t)>>
+  ELSE IF UniqueInDoc(n, NameOf(n, t)) \/ Bug = "PrefixDropped" \/ (Bug = "StaleUniqueCache" /\ NameOf(n, t) \in cache) THEN <<0, NameOf(n, t)>>
   ELSE <<t[1], NameOf(n, t)>>
+Printed(n, h, t) == PrintedWith(n, h, t, {})
 Init == /\ ns \in UNION {[1..k -> {sq \in UNION {[1..m -> TableNames] : m \in 1..MaxTables} : Injective(sq)}] : k \in 1..MaxSheets}
         /\ host \in (1..MaxSheets) \X (1..MaxTables) /\ target \in (1..MaxSheets) \X (1..MaxTables)
         /\ host \in Tables(ns) /\ target \in Tables(ns)
-Next == UNCHANGED vars
+        /\ ns0 = ns /\ renamed = <<>> /\ uniq = UniqueNames(ns)
+\* Table.name = nm  (a sibling's name is not a legal new name); the name cache is NOT rebuilt by a rename
+Rename(x, nm) == /\ renamed = <<>>
+                 /\ x \in Tables(ns)
+                 /\ \A t \in 1..Len(ns[x[1]]) : ns[x[1]][t] # nm
+                 /\ ns' = [ns EXCEPT ![x[1]][x[2]] = nm]
+                 /\ renamed' = <<x, nm>>
+                 /\ UNCHANGED <<host, target, ns0, uniq>>
+Next == \E x \in (1..MaxSheets) \X (1..MaxTables), nm \in TableNames : Rename(x, nm)
 Spec == Init /\ [][Next]_vars
-ExactlyTheTarget == Resolve(ns, host, Printed(ns, host, target)) = {target}
+ExactlyTheTarget == Resolve(ns, host, PrintedWith(ns, host, target, uniq)) = {target}
 
 \* one string per namespace case for the spec -> code replay
-EmitCase == PrintT("N " \o ToString(ns) \o " " \o ToString(host) \o " " \o ToString(target))
+EmitCase == IF renamed = <<>> THEN PrintT("N " \o ToString(ns) \o " " \o ToString(host) \o " " \o ToString(target))
+            ELSE PrintT("M " \o ToString(ns0) \o " " \o ToString(host) \o " " \o ToString(target) \o " " \o ToString(renamed[1]) \o " " \o renamed[2])
 \* ---- coordinates (used by Trace_Refs): an end is <<stored number, absolute flag>>, the host coordinate is given
 ResolveEnd(end, hostCoord) == IF end[2] THEN end[1] ELSE hostCoord + end[1]
 ====
